@@ -353,6 +353,9 @@ func main() {
 	sp(&ctor{name: "InAnon_K0", inStyle: true, deps: []dep{{target: "K1", form: "FAnon"}}, outs: simpleOut("K0"), hasErr: true})
 	sp(&ctor{name: "InAnon_S4", inStyle: true, deps: []dep{{target: "K2", form: "FAnon"}, mkDep("K3", "FPlain"), {target: "IK1", form: "FAnon"}}, outs: simpleOut("S4")})
 	sp(&ctor{name: "InAnon_K2", inStyle: true, deps: []dep{mkDep("K0", "FPlain"), {target: "K3", form: "FAnon"}}, outs: simpleOut("K2")})
+	// built-in injectables in fields tagged optional:"true": still the scope's own context / scope / provider
+	sp(&ctor{name: "BIopt_S6", inStyle: true, deps: []dep{{target: "Context", form: "FContext", optional: true}, {target: "Scope", form: "FScope", optional: true}, {target: "Provider", form: "FProvider", optional: true}}, outs: simpleOut("S6")})
+	sp(&ctor{name: "BIopt_K3", inStyle: true, deps: []dep{{target: "Scope", form: "FScope", optional: true}, mkDep("K0", "FOpt"), {target: "Context", form: "FContext"}}, outs: simpleOut("K3"), hasErr: true})
 	writeTypes()
 	writeCtors()
 }
